@@ -6,8 +6,9 @@
             op := (0 key id bad) add | (1) list(sorter)
             reply: one per op: add -> (exn?) ; iter -> ((item ...) exn?)
           | (1 cap always stop fault (op ...))      I/O world (SorterWorld.v), C18
-            op := (0 key id bad) | (1 pulls) | (2) close ; fault := () | (n enoent)
+            op := (0 key id bad) | (1 pulls) | (1 pulls keep) | (2) close ; fault := () | (n enoent)
             reply: ((obs ...) (close-outcome ...) (files fds whandles rhandles) (call ...) hit?)
+            (the counts are taken right after the closes, while the caller still holds the generators it kept)
             obs := (outcome (item ...) files open)
           | (2 cap fault (item ...))                MafWriter with a sorter, C18
             reply: ((add-outcome ...) (close-outcome ...) (item ...) closed (files fds wh rh) (call ...) hit?)
@@ -76,7 +77,8 @@ Definition wop := op item.
 Definition dec_wop (s : sexp) : option wop :=
   match s with
   | L [A 0; A k; A i; A b] => Some (OpAdd item {| ikey := k; iid := i; ibad := b; igen := false |})
-  | L [A 1; A p] => Some (OpIter item (Z.to_nat p))
+  | L [A 1; A p] => Some (OpIter item (Z.to_nat p) false)
+  | L [A 1; A p; A k] => Some (OpIter item (Z.to_nat p) (negb (k =? 0)))
   | L [A 2] => Some (OpClose item)
   | _ => None
   end.
